@@ -99,7 +99,7 @@ def run(r: Run):
                     [(f"H+:0={k}", 0) for k in (1, 2, 3, 5, 8)], CARRIERS))
     for gen, items, carriers in streams:
         mode = {"poisson": "poisson", "conv": "conv", "brain": "brain"}[gen]
-        zs = list(range(-8, 9)) if thorough or gen == "poisson" else [-8, -3, -1, 0, 1, 2, 5]
+        zs = list(range(-8, 9))
         if gen != "poisson":
             zs = zs + [2147483647, -2147483647, -2147483648]   # the extremes of the charge's type
         lines, meta = [], []
